@@ -363,5 +363,5 @@ def tasks(ctx):
     t = []
     for sh in range(NSHARDS):
         t.append((task_grid, dict(shard=sh)))
-        t.append((task_random, dict(shard=sh, n=ctx.pick(100, 3000))))
+        t.append((task_random, dict(shard=sh, n=ctx.pick(400, 3000))))
     return t
